@@ -58,6 +58,7 @@ def _check_main(run, P):
     _alias(run, "C10.cycle", "C16.ids", lambda: _c10._edges_kept(run, P))
     run.do(_agree, run, P)
     run.do(_phases, run, P)
+    run.do(_table, run, P)
     # the read sets clash detection works on, and the rebuilding of mapped fields
     # (shared with C08.mapper / C08.ident)
     from . import c08 as _c08
@@ -400,6 +401,83 @@ def _phases(run, P):
            construct=f"a phase present on one side only is returned as it is "
                      f"(returns: {sorted(v for v in vals if v)}); no path returns nothing",
            why="dropping or emptying a one-sided phase loses that method's statements")
+
+
+def _table(run, P):
+    """fuse_two_phases as a decision table, by symbolic evaluation over which of
+    the two phases is present (any loop-free re-writing is understood)."""
+    from ..engine import symeval as se
+    run.rule("C16.table", "fuse_two_phases, case by case (symbolic evaluation): only one "
+             "phase present - that phase is returned; both present and their default "
+             "successors differ - ValueError; both present - an ExecutionPhase of the "
+             "common name and successor whose statements are the first result of "
+             "disambiguate_and_fuse(first.statements, second.statements, predicate); "
+             "neither - ValueError", minimum=5)
+    f = P.func("dagrt.transform.fuse_two_phases")
+    if len(f.params) < 4:
+        raise AnalysisError("fuse_two_phases(phase_name, phase1, phase2, should_disambiguate_name) expected")
+    pn, p1, p2, pr = f.params[:4]
+    ev = se.Evaluator(P)
+    P1, P2, PRED, NAME = ("obj", "first"), ("obj", "second"), ("obj", "predicate"), ("obj", "phase_name")
+    for a1 in (se.NONE, P1):
+        for a2 in (se.NONE, P2):
+            for apr in (se.NONE, PRED):
+                outs = ev.outcomes(f, {pn: NAME, p1: a1, p2: a2, pr: apr})
+                case = f"first {'present' if a1 != se.NONE else 'absent'}, second " \
+                       f"{'present' if a2 != se.NONE else 'absent'}, predicate " \
+                       f"{'given' if apr != se.NONE else 'default'}"
+                bad = None
+                for (kind, val), facts in outs:
+                    differ = None
+                    for k, v in facts.items():
+                        if k[0] == "eq" and {k[1], k[2]} == {("attr", P1, "next_phase"), ("attr", P2, "next_phase")}:
+                            differ = not v
+                    if a1 == se.NONE and a2 == se.NONE:
+                        ok = kind == "raise" and val == "ValueError"
+                        want = "ValueError"
+                    elif a2 == se.NONE:
+                        ok = kind == "return" and val == P1
+                        want = "the first phase"
+                    elif a1 == se.NONE:
+                        ok = kind == "return" and val == P2
+                        want = "the second phase"
+                    elif differ:
+                        ok = kind == "raise" and val == "ValueError"
+                        want = "ValueError (default successors differ)"
+                    else:
+                        want = "ExecutionPhase(name, next_phase, statements=disambiguate_and_fuse(...)[0])"
+                        ok = False
+                        if kind == "return" and val[0] == "call" and val[1][0] == "name" \
+                                and val[1][1].split(".")[-1] == "ExecutionPhase" and differ is not None:
+                            kw = dict(val[3])
+                            pos = list(val[2])
+                            name_t = kw.get("name", pos[0] if pos else None)
+                            next_t = kw.get("next_phase", pos[1] if len(pos) > 1 else None)
+                            st_t = kw.get("statements", pos[2] if len(pos) > 2 else None)
+                            name_ok = name_t in (("attr", P1, "name"), ("attr", P2, "name"), NAME)
+                            next_ok = next_t in (("attr", P1, "next_phase"), ("attr", P2, "next_phase"))
+                            st_ok = False
+                            if st_t is not None and st_t[0] == "item" and st_t[2] == 0 and st_t[1][0] == "call" \
+                                    and st_t[1][1][0] == "name" \
+                                    and st_t[1][1][1].split(".")[-1] == "disambiguate_and_fuse":
+                                cargs = st_t[1][2]
+                                st_ok = len(cargs) == 3 and cargs[0] == ("attr", P1, "statements") \
+                                    and cargs[1] == ("attr", P2, "statements") \
+                                    and (cargs[2] == PRED if apr != se.NONE else cargs[2][0] == "fn")
+                            ok = name_ok and next_ok and st_ok
+                        elif kind == "return" and differ is None:
+                            ok = False
+                            want = "a comparison of the default successors before fusing"
+                    if not ok:
+                        got = f"raises {val}" if kind == "raise" else f"returns {se.show(val)[:90]}"
+                        bad = f"{got}; expected {want}"
+                        break
+                run.ob("C16.table", f, f.node, bad is None,
+                       construct=f"fuse_two_phases: {case}" + (f": {bad}" if bad else ""),
+                       why="a phase that only one method has must come through unchanged, two "
+                           "phases of the same name must be fused from the first method's and the "
+                           "second method's statements in that order, and a disagreement about "
+                           "the default successor must be reported")
 
 
 def check(run, P):
